@@ -89,8 +89,11 @@ fn cexp(a: P) -> P {
     let e = a.0.exp();
     (e * a.1.cos(), e * a.1.sin())
 }
+fn ln_modulus(a: P) -> f64 {
+    refmodel::ev_cpx::ln_modulus(a.0, a.1)
+}
 fn cln(a: P) -> P {
-    (modulus(a).ln(), a.1.atan2(a.0))
+    (ln_modulus(a), a.1.atan2(a.0))
 }
 fn cpow(a: P, b: P) -> P {
     cexp(mul(b, cln(a)))
@@ -265,6 +268,7 @@ pub fn c08(cx: &RunCtx) {
     }
     let kinds = [Kind::Value, Kind::WellFormedErr, Kind::MustErrOk];
     crate::fam::sign_runs::<Cpx>(cx, &kinds);
+    crate::fam::idioms::<Cpx>(cx, &kinds);
     use BinOp::*;
     let mut bins: Vec<BinKind> = [Add, Sub, Mul, Div, Pow].iter().map(|b| BinKind::Op(*b)).collect();
     bins.push(BinKind::Call(Func::Pow));
@@ -322,6 +326,16 @@ pub fn c08(cx: &RunCtx) {
             grid.push(cleaf(k as f64 / div + 0.125, l as f64 / div - 0.125));
         }
     }
+    // … and operands on and next to the unit circle, where |z| rounds to 1 and the real part of a logarithm is all in
+    // the digits that rounding drops (1 + 1e-8 i, 0.6 + 0.8 i and its neighbours)
+    for e in [1e-3, 1e-5, 1e-7, 1e-8, 1e-9, 1e-12] {
+        for (re, im) in [(1.0, e), (1.0, -e), (e, 1.0), (e, -1.0), (1.0 + e, e), (1.0 - e, e), (0.6 + e, 0.8), (0.6, 0.8 - e), (-0.8, 0.6 + e)] {
+            grid.push(cleaf(re, im));
+        }
+    }
+    grid.push(cleaf(0.6, 0.8));
+    grid.push(cleaf(0.8, -0.6));
+    grid.push(cleaf(-0.28, 0.96));
     // the pairs are taken against a small second list, not the full square of the grid
     let mut uns2: Vec<UnOp> = vec![UnOp::Neg, UnOp::Sup2, UnOp::Deg, UnOp::Rad];
     for f in all_funcs1() {
